@@ -15,6 +15,7 @@
 (*   Slot:    'slot' val=Value;                                             *)
 (*   Value:   Tag | Cell;                an abstract rule with a match-rule  *)
 (*   Tag:     /t[0-9]+/;                 alternative: val may be a plain value *)
+(*   Bag:     'bag' vals+=Value[','];    a list typed with that abstract rule  *)
 (*   Def:     DefA | DefB;                                                  *)
 (*   DefA:    'defa' name=ID ('extends' extends+=[Def:QName][','])?;        *)
 (*   DefB:    'defb' name=ID;                                               *)
@@ -62,7 +63,9 @@ Ext(s) ==
   LET f == NumFiles(s)
       left == MaxRefs - TotalRefs(s)
       ps == SetToSeq(PathUp(s, Len(s)))
-      forSlot(p, k) == LET kds == SetToSeq(Allowed(CarrierMeta[s[p].kind][k].decl)) IN
+      \* Bag (a list typed with the mixed abstract rule Value) matters for the processor walk only
+      forSlot(p, k) == LET kds == SetToSeq(Allowed(CarrierMeta[s[p].kind][k].decl)
+                                           \ (IF Family \in {"c13", "shapes"} THEN {} ELSE {"Bag"})) IN
                        Cat([a \in 1..Len(kds) |->
                               LET nrs == SetToSeq({nr \in NrefChoices(kds[a]) : nr <= left}) IN
                               [b \in 1..Len(nrs) |->
@@ -81,7 +84,7 @@ Visible(s, f) == {t \in 1..Len(s) : s[t].kind \in DefKinds /\ (s[t].file = f \/ 
 Complete(s) ==
   /\ \A o \in 1..Len(s) :
        /\ s[o].kind \in {"Box", "Slot"} => Cardinality(KidsOfShape(s, o)) = 1
-       /\ s[o].kind = "Grp" => KidsOfShape(s, o) # {}
+       /\ s[o].kind \in {"Grp", "Bag"} => KidsOfShape(s, o) # {}
        /\ s[o].kind = "Model" => s[o].hdr \/ KidsOfShape(s, o) # {}
        /\ s[o].nref > 0 => Visible(s, s[o].file) # {}
   /\ NumFiles(s) = 1 + Cardinality({o \in 1..Len(s) : s[o].kind = "Import"})
@@ -162,7 +165,9 @@ Build(s, rs, main, procs, repl, fault) ==
                 start |-> RefStart(s, rs, rs[i].owner, i - RefBase(s, rs[i].owner)),
                 len |-> RefLen(rs[i].parts)]],
    files |-> [f \in 1..NumFiles(s) |-> IF f = 1 THEN main ELSE "imp" \o ToString(f) \o ".m"],
-   procs |-> procs, repl |-> repl, replk |-> [i \in 1..Len(repl) |-> "str"], fault |-> fault]
+   lang |-> [f \in 1..NumFiles(s) |-> 1],
+   procs |-> procs, repl |-> repl, replk |-> [i \in 1..Len(repl) |-> "str"],
+   procs2 |-> <<>>, repl2 |-> <<>>, replk2 |-> <<>>, fault |-> fault]
 
 ----------------------------------------------------------------------------
 \* processor tables
@@ -188,11 +193,20 @@ C13Scenarios(u) ==
           LET s == S[i]
               base == Build(s, DefaultRefs(s), "main.m", <<>>, <<>>, NoFault)
               ts == Tables(s)
+              rel == SeqOfSet(RelevantRules(s))
+              strs == [q \in 1..Len(rel) |-> "str"]
+              two == [base EXCEPT !.lang = <<1, 2>>]
           IN [j \in 1..Len(ts) |->
                 LET R == SeqOfSet(ts[j][2]) IN
                 [base EXCEPT !.procs = SeqOfSet(ts[j][1]), !.repl = R,
                              \* replacement values: identifying strings, and a falsy value now and then
-                             !.replk = [q \in 1..Len(R) |-> IF (q + j) % 3 = 0 THEN "zero" ELSE "str"]]]])
+                             !.replk = [q \in 1..Len(R) |-> IF (q + j) % 3 = 0 THEN "zero" ELSE "str"]]]
+             \* the imported model belongs to a second language with registrations of its own
+             \o (IF NumFiles(s) = 2
+                 THEN <<[two EXCEPT !.procs2 = rel],
+                        [two EXCEPT !.procs = rel],
+                        [two EXCEPT !.procs = rel, !.procs2 = rel, !.repl2 = rel, !.replk2 = strs]>>
+                 ELSE <<>>)])
 \* shapes only (the conformance pass multiplies them with processor tables itself)
 ShapeScenarios(u) == LET S == Shapes IN
                      [i \in 1..Len(S) |-> Build(S[i], DefaultRefs(S[i]), "main.m", <<>>, <<>>, NoFault)]
